@@ -269,6 +269,34 @@ def body(chk):
             rec = reconstitute(sub)
             if not ok or float(np.min(rec.lo)) != min(a for a, _ in box) and False:
                 chk.report("subintervalise", "tiles do not partition the box (wrong count, overlap or gap)", rep)
+    # ---- ONE box, several response functions in a row through the vertex method (no subdivision in between), and the first function once
+    # more at the end: every answer is the min / max of THAT function over the corners
+    for rd in range(6 if chk.tier == "quick" else 60):
+        d = rng.choice([2, 2, 3])
+        box = gen_box(rng, d)
+        corners = np.array(list(itertools.product(*[(a, b) for a, b in box])), dtype=float)
+        funcs = []
+        for _ in range(3):
+            e = gen_expr(rng, d, rng.choice([2, 3]))
+            if not variables(e):
+                e = ("add", e, ("var", 0))
+            funcs.append(make_func(e))
+        seq = funcs + [funcs[0]]
+        for step, (f, src) in enumerate(seq):
+            out = run_strategy(f, box, ("endpoints",))
+            chk.count("same-box-endpoints", key=("samebox", rd, step))
+            with np.errstate(all="ignore"):
+                yc = np.asarray(f(corners), dtype=float)
+            if yc.ndim == 0:
+                yc = np.full(len(corners), float(yc))
+            if not np.isfinite(yc).all():
+                continue
+            rep = {"kind": "oracle", "box": box, "functions_in_order": [s_ for _, s_ in seq[:step + 1]], "observed": out}
+            if out[0] != "ok":
+                chk.report("b2b:endpoints:same-box", f"vertex method raises {out[2]} for function {step + 1} of a sequence on one box", rep)
+            elif out[1] != float(yc.min()) or out[2] != float(yc.max()):
+                chk.report("b2b:endpoints:same-box", f"function {step + 1} of a sequence of vertex evaluations on ONE box: result [{out[1]}, {out[2]}] is not the min/max of that function over the 2^d corners [{yc.min()}, {yc.max()}]", rep)
+                break
     chunks = []
     CH = 20
     for s in range(0, len(items), CH):
